@@ -60,6 +60,14 @@ def specs(pid, tier):
                 sp.append(("cm3", 0x01, ((None, pat),)))
                 sp.append(("cm3", 0x81, ((255, None), (None, pat), (None, "all-up"))))
         sp.append(("cm3", 0x01, ((None, "all-left"), (None, "left-at-col0-then-literal"))))
+        # the length byte of the second stream is the encoder's choice: any value 0..127 that holds the bits is valid (spare
+        # bytes after the last used one, e.g. 21 for a line that needs all 20, 127 at the limit)
+        sp.append(("cm3", 0x01, ((128, None), (21, "all-literal"))))
+        sp.append(("cm3", 0x01, ((128, None), (21, "all-up"))))
+        sp.append(("cm3", 0x01, ((128, None), (40, "alternate"))))
+        if T:
+            sp.append(("cm3", 0x01, ((128, None), (127, "mixed"))))
+            sp.append(("cm3", 0x01, ((128, None), (1, "all-left"))))
         # two pages: the first line of page 2 refers to the last line of page 1 (copy-up, copy-left at column 0)
         sp.append(("cm3", 0x81, ((255, None), ("page", None), (None, "all-up"))))
         sp.append(("cm3", 0x81, ((128, None), ("page", None), (None, "all-left"))))
@@ -112,6 +120,8 @@ def specs(pid, tier):
             sp.append(("max", 0, False, 8, None, None, True, L))
             sp.append(("max", 0, True, 256, None, None, False, min(L, 5)))
         sp.append(("max", 0, False, 16, 2, None, False, 8))
+        for cols in (12, 20, 100):
+            sp.append(("max", 0, False, cols, None, None, False, 7 + (cols >> 3)))
         sp.append(("max", 0, False, 8, 2, None, True, 7))
         sp.append(("max", 0, False, 8, 1, 1, False, 7))
         for n in (0, 1, 2, 3):
@@ -329,6 +339,16 @@ def obligations_pixels(out, spec, st, pid):
             continue
         if case.decoder == "maxtoppm" and p.get("value") is False:
             max_refusal_ob(out, case, p, spec, st)
+        if case.decoder == "maxtoppm" and p.get("value") is not False and p["status"] == "ok" and p["hdr"][0] is not None and p["expect"][0] is not None and p["expect"][1] is not None:
+            # the announced size is what the options / the header bytes dictate (unsigned bytes, big-endian length)
+            st.bump("obligations")
+            ct, rt = term(p["hdr"][0]), term(p["hdr"][1])
+            v, m = smt.check(p["pc"] + case.premises + [z3.Or(ct != p["expect"][0], rt != p["expect"][1])], 20000, True, stats=st)
+            st.bump(v)
+            if v == "sat":
+                got, data = case.replay(m)
+                out["replays"] += 1
+                out["sigs"].append(("header:maxtoppm:geometry", f"{case.name}: announced size differs from what the options / header dictate for input {data.hex()[:40]} (real decoder: {str(got)[:60]})", {"case": str(spec), "input_hex": data.hex()}))
         if case.decoder in ("cm3toppm", "mgetoppm", "rattoppm") and p.get("header_ok") is False and pid != "C18":
             out["sigs"].append((f"header:{case.decoder}", f"{case.name}: the PPM header differs from the size the format dictates for this picture type", {"case": str(spec)}))
         got = p.get("samples", p.get("got"))
@@ -776,6 +796,23 @@ def obligations_damage(out, spec, st):
             if cols is None:
                 out["sigs"].append(("silent:maxtoppm:no-header", f"{case.name}: success without header", {"case": str(spec)}))
                 continue
+            head = p.get("head") or []
+            if not case.params.get("newsroom") and not case.params.get("rows") and not case.params.get("ignore") and len(head) >= 3:
+                # a length field that is not a whole number of rows at this width is a header error: success must imply
+                # width * rows / 8 = length (the documented check), whatever the width
+                st.bump("obligations")
+                size = term(head[1]) * 256 + term(head[2])
+                c_ = bv(case.params["cols"])
+                r_ = z3.UDiv(size * 8, c_)
+                v, m = smt.check(p["pc"] + case.premises + [z3.UDiv(c_ * r_, bv(8)) != size], 20000, True, stats=st)
+                st.bump(v)
+                if v == "sat":
+                    real, raw = case.replay(m)
+                    out["replays"] += 1
+                    if isinstance(real, tuple) and real[1] is True:
+                        out["sigs"].append(("silent:maxtoppm:inconsistent-length-accepted", f"{case.name}: length field {m.eval(size, True)} is not a whole number of rows of {case.params['cols']} pixels, yet the file is accepted (input {raw.hex()[:24]})", {"case": str(spec), "input_hex": raw.hex()}))
+                    else:
+                        out["sigs"].append(("harness-replay", f"{case.name}: inconsistent-length model {raw.hex()} did not replay: {str(real)[:60]}", None))
             ct, rt = term(cols), term(rows)
             n = len(p["samples"])
             pre = p["pc"] + case.premises
